@@ -33,7 +33,9 @@ RULE = ("seeded plans: 6-12 metadata items per plan with every field drawn from 
         "width, info of length 0..limit (limit = k-11-59 for the key) with the limit, limit+1 and limit+40 biased, "
         "RSA-1024 and RSA-2048 fixture pairs, PKCS#1 padding bytes from the seeded stream; rogue blobs: encrypted under "
         "another key, random modulus-length bytes, single-bit flips, RSA-valid plaintexts without 0xBEEF or shorter "
-        "than the magic. non-trivial = every exchange plan; sessions with >= 1 check-in; distinct = distinct digest")
+        "than the magic, complete structures with a lying size field; one RSA-only C2Http shown check-ins with rogue (repeatedly) "
+        "and genuine blobs under a generated http-get program; the library's client set up (dry run) for 3 ids, half of them ids "
+        "whose 16 random bytes start with a zero byte. non-trivial = every exchange plan; sessions with >= 1 check-in; distinct = distinct digest")
 ASSUMPTIONS = [
     "RSA-valid plaintexts that carry the 0xBEEF magic but are truncated or have an inconsistent size field are recorded, not judged (the property only names missing magic and non-decryptable blobs)",
     "trusted: PyCryptodome PKCS1_v1_5 / RSA, struct-based reference parser anchored to captured traffic",
